@@ -115,6 +115,8 @@ static int single_case(Choice& c, Report& rep) {
   HeapBuf<float> pf((size_t)pass_size * e.ch); HeapBuf<opus_int16> pi((size_t)pass_size * e.ch);
   HeapBuf<unsigned char> out(maxb);
   int since_change = 1000, checked = 0, skipped = 0;
+  const bool use24 = (fnv1a(c.d, c.n) % 2) == 1;     // integer entry point: opus_encode or opus_encode24 (hash-derived: replays keep their meaning)
+  if (api && use24) rep.label("entry:encode24");
   for (int k = 0; k < npk; k++) {
     for (int i = 0; i < nchg; i++) if (chg_at[i] == k) {
       int r = opus_encoder_ctl(enc.p, OPUS_SET_FORCE_CHANNELS(chg_to[i]));
@@ -123,7 +125,8 @@ static int single_case(Choice& c, Report& rep) {
     }
     size_t off = (size_t)k * pass_size * e.ch;
     int r;
-    if (api) { for (size_t i = 0; i < pi.n; i++) { double v = std::floor(x[off + i] * 32768.0 + 0.5); pi[i] = (opus_int16)(v > 32767 ? 32767 : v < -32768 ? -32768 : v); } r = opus_encode(enc.p, pi.p, pass_size, out.p, maxb); }
+    if (api && use24) { HeapBuf<opus_int32> p24(pi.n); for (size_t i = 0; i < pi.n; i++) { double v = std::floor(x[off + i] * 8388608.0 + 0.5); p24[i] = (opus_int32)(v > 8388607 ? 8388607 : v < -8388608 ? -8388608 : v); } r = opus_encode24(enc.p, p24.p, pass_size, out.p, maxb); }
+    else if (api) { for (size_t i = 0; i < pi.n; i++) { double v = std::floor(x[off + i] * 32768.0 + 0.5); pi[i] = (opus_int16)(v > 32767 ? 32767 : v < -32768 ? -32768 : v); } r = opus_encode(enc.p, pi.p, pass_size, out.p, maxb); }
     else { for (size_t i = 0; i < pf.n; i++) pf[i] = x[off + i]; r = opus_encode_float(enc.p, pf.p, pass_size, out.p, maxb); }
     rep.count();
     if (r == OPUS_BUFFER_TOO_SMALL && tight) { rep.label("buffer-too-small"); continue; }
